@@ -34,8 +34,10 @@ type Config struct {
 	Net    simnet.Opts
 	Client drpcmanager.Options
 	Server drpcmanager.Options
-	NoConn bool // do not create the client conn (raw client side)
-	NoSrv  bool // do not start the server (raw server side)
+	// CollectStats turns on per-rpc statistics on the client connection and on the server.
+	CollectStats bool
+	NoConn       bool // do not create the client conn (raw client side)
+	NoSrv        bool // do not start the server (raw server side)
 	// Real, if set, supplies real transports (net.Pipe, sockets) instead of simnet:
 	// no tap, no gates, and the census cannot be used (goroutines sit in IO wait).
 	Real func() (client, server drpc.Transport, cleanup func())
@@ -75,7 +77,7 @@ func New(cfg Config, h drpc.Handler) *Rig {
 	director.Install(r.Dir)
 	r.ServeCtx, r.StopServe = context.WithCancel(context.Background())
 	if !cfg.NoSrv {
-		r.Srv = drpcserver.NewWithOptions(h, drpcserver.Options{Manager: cfg.Server, Log: func(err error) {
+		r.Srv = drpcserver.NewWithOptions(h, drpcserver.Options{Manager: cfg.Server, CollectStats: cfg.CollectStats, Log: func(err error) {
 			r.mu.Lock()
 			r.ServerLogs = append(r.ServerLogs, err)
 			r.mu.Unlock()
@@ -83,7 +85,7 @@ func New(cfg Config, h drpc.Handler) *Rig {
 		r.ServeOp = Go("ServeOne", func() (interface{}, error) { return nil, r.Srv.ServeOne(r.ServeCtx, trB) })
 	}
 	if !cfg.NoConn {
-		r.Conn = drpcconn.NewWithOptions(trA, drpcconn.Options{Manager: cfg.Client})
+		r.Conn = drpcconn.NewWithOptions(trA, drpcconn.Options{Manager: cfg.Client, CollectStats: cfg.CollectStats})
 	}
 	return r
 }
